@@ -52,7 +52,7 @@ def resultOf (d : Doc) (oid : List Nat) (h : HashAlg) (es : Option (List Ext)) :
 
 theorem det_prescan (O : Oracle) (d : Doc) (oid : List Nat) (h : HashAlg) (es : Option (List Ext)) (num : Option Nat)
     (wf : WF O d oid h es num) :
-    ∃ c', Det (prescan O) ⟨enc d, 0, false, [], 0, []⟩ oid c' := by
+    ∃ c', Det (prescan O) ⟨enc d, 0, false, [], 0, []⟩ (oid, seqOf d.outerAlg) c' := by
   have sz := sizes_of d wf.total
   let c0 : Core := ⟨enc d, 0, false, [], 0, []⟩
   have h0 : c0.rest = tlv 0x30 (bodyOf d) ++ [] := by simp [c0, enc_eq, seqOf]
@@ -97,7 +97,7 @@ theorem tbsContent_rest (d : Doc) :
 
 theorem det_readBody (O : Oracle) (d : Doc) (oid : List Nat) (h : HashAlg) (es : Option (List Ext)) (num : Option Nat)
     (wf : WF O d oid h es num) :
-    Det (readBody O oid) ⟨enc d, 0, false, [], 0, []⟩ (resultOf d oid h es)
+    Det (readBody O oid (seqOf d.outerAlg)) ⟨enc d, 0, false, [], 0, []⟩ (resultOf d oid h es)
       ⟨[], (enc d).length, false, encTbs d, 1 + (encLen (bodyOf d).length).length, eventsOf d num⟩ := by
   have sz := sizes_of d wf.total
   have htot := wf.total
@@ -151,6 +151,11 @@ theorem det_readBody (O : Oracle) (d : Doc) (oid : List Nat) (h : HashAlg) (es :
   unfold Crv.readBody
   refine det_bind (det_header c0 0x30 (bodyOf d) [] sz.body h0) ?_
   refine det_bind (det_expectTag _ 0x30) ?_
+  simp only [outerLengthChecked, ↓reduceIte]
+  have hp1 : c1.pos = H.length := by simp [c1, c0, Core.after]
+  have hencLen : (enc d).length = H.length + (bodyOf d).length := by
+    simp only [enc_eq, seqOf, tlv, H, List.length_cons, List.length_append]; omega
+  refine det_bind (det_endPosition c1 (bodyOf d).length (by rw [hp1, ← hencLen]; omega)) ?_
   refine det_bind (det_lookupHashM oid h wf.hashOk _) ?_
   refine det_bind (det_setHashing c1 true) ?_
   refine det_bind (det_header c2 0x30 (tbsContent d) _ sz.tbs hc2) ?_
@@ -160,7 +165,8 @@ theorem det_readBody (O : Oracle) (d : Doc) (oid : List Nat) (h : HashAlg) (es :
   have hver : ¬ verOf d.version > maxVersion := by
     have := wf.versionOk; unfold docVersion at this; exact Nat.not_lt.mpr this
   simp only [hver, ↓reduceIte]
-  refine det_bind (det_ignoreErr (det_seqFrame c4 d.innerAlg _ wf.innerLen rfl)) ?_
+  refine det_bind (det_readInnerAlg O c4 (seqOf d.outerAlg) d.innerAlg _ wf.innerLen rfl
+    (by rw [wf.algSame, wf.algOk]; rfl) (by rw [wf.algSame])) ?_
   refine det_bind (det_seqStruct c5 .rdn O.rdnOk d.issuer _ wf.issuerLen rfl wf.issuerOk) ?_
   refine det_bind (det_utc O c6 d.thisUpdate _ wf.thisLen rfl wf.thisOk) ?_
   have hc7 : c7.rest = encOptTime d.nextUpdate ++ (tag :: tl) := by simp only [c7, Core.after, hafter]
@@ -228,6 +234,7 @@ theorem det_readBody (O : Oracle) (d : Doc) (oid : List Nat) (h : HashAlg) (es :
   rw [hres]
   have : tlv 3 ((0 : UInt8) :: d.sig) = encSig d := rfl
   rw [← hfin]
-  exact det_pure _ _
+  refine det_bind (det_checkEnvelope _ _ _ (Nat.mul_mod_left _ _) ?_) (det_pure _ _)
+  rw [hfin, hp1, hencLen]
 
 end Crv
